@@ -27,7 +27,8 @@
             by inspection true of every handler except the PTO branch of LossDetection (probe
             timers are truncated to microseconds, hence [<] for the ns-valued ones);
       (iii) no PANIC record (handled by [run_from]), the drive loop settles (no ANOMALY 2), the run
-            does not exhaust the step budget (END reason 3). *)
+            does not exhaust the step budget (END reason 3) nor the record budget of the projection
+            (record 98). *)
 From Coq Require Import ZArith List Bool.
 From QV Require Import Lib.Corr Sys.Trace.
 Import ListNotations.
@@ -83,6 +84,8 @@ Definition step (s : st) (r : list Z) : option st :=
     end
   else if tag r =? 12 then
     if (fld r 4 =? 0) && (fld r 5 =? 0) && (fld r 7 =? 0) then Some s else None
+  else if tag r <? 0 then None                       (* -997 / -998: the simulator died or timed out on this case *)
+  else if tag r =? 98 then None                      (* trace budget of the projection exceeded *)
   else if (tag r =? 11) && (fld r 4 =? 2) then None
   else if (tag r =? 10) && (fld r 2 =? 3) then None
   else Some s.
